@@ -1175,7 +1175,16 @@ class VM:
                 "sort",
             ]
             if key_str in array_methods:
-                return self._make_array_method(obj, key_str)
+                # The method acts on the array it is *called on*: that is obj
+                # for arr.m(...), but the explicit receiver for
+                # Array.prototype.m.call(other, ...) / apply / bind.
+                vm = self
+
+                def array_method(this_val, *args, _name=key_str, _home=obj):
+                    target = this_val if isinstance(this_val, JSArray) else _home
+                    return vm._make_array_method(target, _name)(*args)
+
+                return JSBoundMethod(array_method)
             return obj.get(key_str)
 
         if isinstance(obj, JSRegExp):
@@ -2569,6 +2578,10 @@ class VM:
             if len(self.stack) > stack_len:
                 return self.stack.pop()
             return UNDEFINED
+        elif isinstance(callback, JSBoundMethod):
+            # Built-in method used as a callback: it takes its receiver explicitly
+            result = callback(this_val if this_val is not None else UNDEFINED, *args)
+            return result if result is not None else UNDEFINED
         elif callable(callback):
             result = callback(*args)
             return result if result is not None else UNDEFINED
